@@ -37,8 +37,8 @@ def showE (e : Nsq.Model.PQ.E) : String := s!"{e.id}:{e.pri}:{e.index}"
 
 def showHeap (a : Nsq.Model.PQ.H) : String := joinWith "," (a.toList.map showE)
 
-def showPopped : Option (Nsq.Model.PQ.H × Nsq.Model.PQ.E) → String
-  | none => "none"
+def showPopped (none_ : String) : Option (Nsq.Model.PQ.H × Nsq.Model.PQ.E) → String
+  | none => none_
   | some (a, e) => s!"{showE e} | {showHeap a}"
 
 def parseNats (s : String) : Option (List Nat) :=
@@ -149,6 +149,12 @@ def stepLine (line : String) : String :=
       | some d => s!"{d.toInt}"
       | none => "err"
     | _, _ => "bad-op"
+  | ["reqtcp", maxReq, h, lo, hi] =>
+    match bv64 maxReq, unhex h, lo.toInt?, hi.toInt? with
+    | some m, some b, some lo, some hi => match Nsq.Model.Num.reqTimeout m (toBV8 b) with
+      | some d => s!"ok in={decide (lo ≤ d.toInt ∧ d.toInt ≤ hi)}"
+      | none => "err"
+    | _, _, _, _ => "bad-op"
   | ["dpub", maxReq, h] =>
     match bv64 maxReq, unhex h with
     | some m, some b => match Nsq.Model.Num.dpubDefer m (toBV8 b) with
@@ -179,23 +185,23 @@ def stepLine (line : String) : String :=
     | _, _, _ => "bad-op"
   | ["pq1", "pop", a] =>
     match parseHeap a with
-    | some a => showPopped (Nsq.Model.PQ.pop1 a)
+    | some a => showPopped "panic" (Nsq.Model.PQ.pop1 a)
     | none => "bad-op"
   | ["pq1", "remove", a, i] =>
     match parseHeap a, i.toNat? with
-    | some a, some i => showPopped (Nsq.Model.PQ.remove1 a i)
+    | some a, some i => showPopped "panic" (Nsq.Model.PQ.remove1 a i)
     | _, _ => "bad-op"
   | ["pq2", "remove", a, i] =>
     match parseHeap a, i.toNat? with
-    | some a, some i => showPopped (Nsq.Model.PQ.remove2 a i)
+    | some a, some i => showPopped "panic" (Nsq.Model.PQ.remove2 a i)
     | _, _ => "bad-op"
   | ["pq1", "peek", a, t] =>
     match parseHeap a, t.toInt? with
-    | some a, some t => showPopped (Nsq.Model.PQ.peekAndShift1 a t)
+    | some a, some t => showPopped "nil" (Nsq.Model.PQ.peekAndShift1 a t)
     | _, _ => "bad-op"
   | ["pq2", "peek", a, t] =>
     match parseHeap a, t.toInt? with
-    | some a, some t => showPopped (Nsq.Model.PQ.peekAndShift2 a t)
+    | some a, some t => showPopped "nil" (Nsq.Model.PQ.peekAndShift2 a t)
     | _, _ => "bad-op"
   | ["pqinv", a] =>
     match parseHeap a with
@@ -237,13 +243,6 @@ def stepLine (line : String) : String :=
       | .error .badBody => "E_BAD_BODY"
       | .error .badMessage => "E_BAD_MESSAGE"
     | _, _, _ => "bad-op"
-  | ["textmpub", maxMsg, maxBody, s] =>
-    match maxMsg.toNat?, maxBody.toNat?, unhex s with
-    | some mm, some mb, some s => match Nsq.Model.Wire.textMpub s mm mb with
-      | .ok bs => s!"ok {bs.length} {showBytesList bs}"
-      | .error .bodyTooBig => "BODY_TOO_BIG"
-      | .error .msgTooBig => "MSG_TOO_BIG"
-    | _, _, _ => "bad-op"
   | "bufw" :: cap :: ops =>
     match cap.toNat? with
     | some cap =>
@@ -258,6 +257,14 @@ def stepLine (line : String) : String :=
       | some w => s!"sink={hex w.sink} buf={hex w.buf}"
       | none => "bad-op"
     | none => "bad-op"
+  | [tm, maxMsg, maxBody, s] =>
+    if tm != "textmpub" && tm != "textmpubcl" then "bad-op" else
+    match maxMsg.toNat?, maxBody.toNat?, unhex s with
+    | some mm, some mb, some s => match Nsq.Model.Wire.textMpubHttp (tm == "textmpubcl") s mm mb with
+      | .ok bs => s!"ok {bs.length} {showBytesList bs}"
+      | .error .bodyTooBig => "BODY_TOO_BIG"
+      | .error .msgTooBig => "MSG_TOO_BIG"
+    | _, _, _ => "bad-op"
   | _ => "bad-op"
 
 partial def loop (h : IO.FS.Stream) (out : IO.FS.Stream) (c : Nsq.Model.Timing.Chan) : IO Unit := do
